@@ -159,8 +159,3 @@ def truth_table(atoms, f, g):
     return None
 
 
-def threshold_points(constants):
-    pts = set()
-    for c in constants:
-        pts.update([c - 1, c, c + 1])
-    return sorted(pts)
